@@ -1,6 +1,7 @@
 //! C03 lifecycle protocol per incarnation.
 use super::facts::facts;
 use super::{Cx, Report};
+use crate::log::{K, OpK};
 
 const P: &str = "C03";
 
@@ -16,6 +17,15 @@ pub fn check(cx: &Cx, rep: &mut Report) {
         let n = af.incs.len();
         if n > 1 {
             nontrivial = true;
+        }
+        // "one incarnation per spawn, one more per processed restart": without any restart attempt there is one
+        let attempted = ix.ops.iter().any(|o| (o.tag == af.tag || o.tag >= 9000) && matches!(o.op, OpK::Restart) && o.executed())
+            || ix.ev.iter().any(|e| matches!(&e.k, K::Effect { actor, what, .. } if *actor == af.task && *what == "ctx_restart"));
+        if !attempted {
+            rep.premise("C03.R1.one_incarnation_without_restart");
+            if n > 1 {
+                rep.fail(P, "R1", "restart_without_request", format!("actor task {} (tag {}) went through {n} incarnations although nobody requested a restart", af.task, af.tag), vec![af.incs[1].s_in]);
+            }
         }
         for (k, inc) in af.incs.iter().enumerate() {
             let last = k + 1 == n;
